@@ -31,12 +31,14 @@ BUDGET = {'quick': dict(examples=3200, shards=16, seconds=70),
 
 KEY_STR = ['a', 'b', 'a:b', 'c', 'b:c', '', 'None', 'é']
 KEY_INT = [0, 1, 2, 10]
+# number keys that are equal as numbers but render differently ('1' / '1.0' / '1.00'): different keys by the documented rule
+KEY_NUM = [decimal.Decimal(x) for x in ['1', '1.0', '1.00', '2.5', '2.50', '0', '-0', '10']]
 AGGS = ['sum', 'avg', 'median', 'max', 'min', 'first', 'last', 'count', 'any', 'set', 'array', 'counters']
 NUMERIC_ONLY = {'sum', 'avg', 'median'}
 
 
 def _keyvals(t):
-    pool = KEY_STR if t == 'string' else KEY_INT
+    pool = KEY_STR if t == 'string' else KEY_NUM if t == 'number' else KEY_INT
     return st.one_of(*([st.sampled_from(pool)] * 6 + [st.none()]))
 
 
@@ -58,7 +60,7 @@ def _val(t):
 
 @st.composite
 def small_case(draw):
-    ktypes = [draw(st.sampled_from(['string', 'integer'])) for _ in range(2)]
+    ktypes = [draw(st.sampled_from(['string', 'integer', 'string', 'integer', 'number'])) for _ in range(2)]
     nk = draw(st.integers(1, 2))
     kform = draw(st.sampled_from(['list', 'fmt', 'fmt-lit', 'rownum-list', 'rownum-fmt', 'list', 'fmt', 'fmt-conv', 'fmt-spec',
                                   'rownum-mixed']))
@@ -118,7 +120,8 @@ def small_case(draw):
     # field specs
     specs = {}
     wildcard = draw(st.integers(0, 5)) == 0
-    for i in range(draw(st.integers(0 if wildcard else 1, 4))):
+    # (no field specs at all = join used as a filter / existence check: 'fields' defaults to {})
+    for i in range(draw(st.integers(0 if (wildcard or draw(st.integers(0, 7)) == 0) else 1, 4))):
         n, t = draw(st.sampled_from(vals))
         allowed = [a for a in AGGS if
                    (a not in NUMERIC_ONLY or t in ('integer', 'number')) and
